@@ -29,7 +29,7 @@ CLS_KINDS["Specialization"] = {"Specialization", "Mention"}
 
 
 # local parts that contain a namespace URI again (a URL carried in a query string)
-NESTED_LOCALS = ["r?u=http://a/z", "http://other/x", "vocab"]
+NESTED_LOCALS = ["r?u=http://a/z", "http://other/x", "vocab", ""]      # (the empty local part: the namespace URI itself is the name)
 
 
 KNOWN_CAPTURE = "C18:bundle-captures-delegated-name"
